@@ -20,6 +20,7 @@ type journal struct {
 	lines []string
 	keep  bool
 	f     *os.File
+	buf   []byte
 	start time.Time
 }
 
@@ -47,7 +48,17 @@ func (j *journal) logf(format string, a ...any) {
 		j.lines = append(j.lines, s)
 	}
 	if j.f != nil {
-		j.f.WriteString(s + "\n")
+		// kept in memory until the run ends: a write is a system call, and a system call made while
+		// other goroutines are runnable lets them run earlier or later depending on how long it takes
+		j.buf = append(j.buf, s...)
+		j.buf = append(j.buf, '\n')
+	}
+}
+
+func (j *journal) flush() {
+	if j.f != nil && len(j.buf) > 0 {
+		j.f.Write(j.buf)
+		j.buf = nil
 	}
 }
 
@@ -267,6 +278,8 @@ func (w *world) finish() {
 	for k, v := range w.net.stats {
 		w.res.Faults[k] += v
 	}
+	w.j.logf("NET %d datagrams %x", w.net.nsent, w.net.nh[:8])
+	w.j.flush()
 	w.res.Hash = w.j.hash()
 	w.res.Events = w.j.n
 	w.res.VirtualS = w.now().Seconds()
